@@ -11,6 +11,7 @@ import (
 	"encoding/xml"
 
 	"mellium.im/xmlstream"
+	"mellium.im/xmpp/internal/ns"
 )
 
 // BUG(ssw): This package is very inefficient, see https://mellium.im/issue/38.
@@ -53,7 +54,19 @@ type rawTokenReader struct {
 }
 
 func (r rawTokenReader) Token() (xml.Token, error) {
-	return r.RawToken()
+	tok, err := r.RawToken()
+	if start, ok := tok.(xml.StartElement); ok {
+		// The "xml" prefix is reserved and never declared; raw tokens report it as
+		// the namespace of the attribute. Use the namespace it is bound to instead
+		// or encoders treat "xml" as a namespace URI and invent a prefix for it
+		// (xmlns:_xml="xml" _xml:lang="en").
+		for i, attr := range start.Attr {
+			if attr.Name.Space == "xml" {
+				start.Attr[i].Name.Space = ns.XML
+			}
+		}
+	}
+	return tok, err
 }
 
 // EncodeXML writes the XML encoding of v to the stream.
